@@ -20,7 +20,8 @@ DepKinds == {"generic", "implTrait", "concrete", "nodeps"}
 Passes == {"ref", "reflife", "value"}
 ParamTys == {"owned", "ref", "reflife", "generic", "implTrait", "array"}
 Quals == {"plain", "unsafe", "extern"}
-Rets == {"unit", "owned", "borrow-deps", "borrow-arg", "generic"}
+\* "borrow-arg-elided": `fn f(.., p1: &str) -> &str` - the borrow is tied to the only reference parameter by ELISION
+Rets == {"unit", "owned", "borrow-deps", "borrow-arg", "borrow-arg-elided", "generic"}
 
 UsesLife(f) == f.deps.pass = "reflife" \/ (\E i \in DOMAIN f.params : f.params[i] = "reflife") \/ f.ret \in {"borrow-deps", "borrow-arg"}
 \* the generic parameter list of the function, in declaration order: [kind, name]
@@ -53,10 +54,15 @@ TraitWhere(fs) == FlattenSeq([k \in DOMAIN fs |-> LiftedWhere(fs[k])])
 \* ---- static-semantics-lite of the emitted code
 Names(gs) == [i \in DOMAIN gs |-> gs[i].name]
 DistinctSeq(s) == \A i, j \in DOMAIN s : i # j => s[i] # s[j]
+\* a receiver inserted for a no_deps function (`&self`) takes part in lifetime elision: an elided output lifetime that
+\* meant "the only reference parameter" now means "self"
+ElisionCaptured(f) == f.deps.kind = "nodeps" /\ f.ret = "borrow-arg-elided"
 StaticOk(fs) ==
+  /\ \A k \in DOMAIN fs : ~ElisionCaptured(fs[k])
   /\ DistinctSeq(Names(TraitParams(fs)))                                                \* `trait T<U, U>`
   /\ \A k \in DOMAIN fs : \A g \in ToSet(MethodParams(fs[k])) : g.name \notin ToSet(Names(TraitParams(fs)))   \* declared on trait AND method
   /\ \A w \in ToSet(TraitWhere(fs)) : w.kind # "life"                                   \* a method lifetime in the trait's where-clause
 \* named deviations of the code from Level 1 ("" = none)
-Class(fs) == IF ~DistinctSeq(Names(TraitParams(fs))) THEN "module-fns-share-a-generic-name" ELSE ""
+Class(fs) == IF ~DistinctSeq(Names(TraitParams(fs))) THEN "module-fns-share-a-generic-name"
+             ELSE IF \E k \in DOMAIN fs : ElisionCaptured(fs[k]) THEN "no-deps-receiver-captures-elided-lifetime" ELSE ""
 =============================================================================
